@@ -270,12 +270,19 @@ def parse_report(err):
                 site = fr[i - 1] if not f.startswith("Phreeqc::read_input") else f
                 break
         return "memory exhaustion (std::bad_alloc or the OOM killer in production)", site, False
+    if asan and asan.group(1) == "ABRT" and re.search(r"Assertion `[^\n]*' failed", err):
+        asan = None          # assert() of the instrumented build (handled below like before)
     if asan:
         site = "?"
         for m in re.finditer(r"(?m)^\s*#\d+ 0x[0-9a-f]+ in (.+?) (/\S+?):(\d+)(?::\d+)?$", err):
             if build.REPO in m.group(2) or "/src/" in m.group(2):
+                if asan.group(1) == "ABRT" and re.match(r"Utilities::str(cpy|cat)_safe", m.group(1)):
+                    continue          # the utility that aborts: its caller is the site
                 site = _func_site(err, m.group(2), m.group(3))
                 break
+        if asan.group(1) == "ABRT":
+            words = [l.strip() for l in err.splitlines() if l.strip() and not l.lstrip().startswith(("==", "#", "SUMMARY", "AddressSanitizer", "The signal", "Hint"))][:2]
+            return "abort (%s)" % "; ".join(w[:80] for w in words), site, False
         if site == "?":
             m = re.search(r"SUMMARY: AddressSanitizer: [\w-]+ (/\S+?):(\d+)", err)
             if m:
@@ -290,6 +297,18 @@ def parse_report(err):
         msg = re.sub(r"-?\d+(\.\d+)?(e[+-]?\d+)?", "N", msg)
         return "ubsan " + msg, _func_site(err, ub.group(1), ub.group(2)), True
     return None, None, False
+
+
+def abort_site(err):
+    """abort() / std::terminate in the instrumented build: the driver's abort() prints the stack; the site is the first
+    frame of the library that is not the utility which aborts (strcpy_safe / strcat_safe are reached from dozens of
+    places: their caller tells the occurrences apart)."""
+    for m in re.finditer(r"(?m)^\s*#\d+ 0x[0-9a-f]+ in (.+?) (/\S+?):(\d+)(?::\d+)?$", err):
+        if (build.REPO in m.group(2) or "/src/" in m.group(2)) and "/native/" not in m.group(2):
+            if re.match(r"Utilities::str(cpy|cat)_safe", m.group(1)):
+                continue
+            return _func_site(err, m.group(2), m.group(3))
+    return "?"
 
 
 def died_kind(e):
@@ -309,7 +328,7 @@ def api(d, fn, *args, phase="", timeout=None):
     except drv.DrvDied as e:
         kind, site, ub_only = parse_report(e.stderr or "")
         if kind is None:
-            kind, site = died_kind(e), "?"
+            kind, site = died_kind(e), abort_site(e.stderr or "")
         tail = "\n".join(l[:220] for l in (e.stderr or "").strip().splitlines()[:12])
         raise CallFailure("died", "crash in %s: %s at %s" % (phase.strip() or "the call", kind, site),
                           "%s%s did not return: %s at %s\n%s" % (phase, fn, kind, site, tail), ub_only)
@@ -353,7 +372,7 @@ def observe(d, flags="gscut"):
     except drv.DrvDied as e:
         kind, site, ub_only = parse_report(e.stderr or "")
         if kind is None:
-            kind, site = died_kind(e), "?"
+            kind, site = died_kind(e), abort_site(e.stderr or "")
         raise CallFailure("died", "crash in the getters after the call: %s at %s" % (kind, site),
                           "reading the getters/strings/tables did not return: %s at %s\n%s" % (kind, site, "\n".join(l[:220] for l in (e.stderr or "").splitlines()[:12])), ub_only)
     o = mask(o)
